@@ -438,3 +438,8 @@ mut("C03 bag: left endpoint pushed twice", [(PRE, _EUL_OLD, '        let mut end
 mut("C03 bag: dedup without sorting first", [(PRE, _EUL_OLD, '        let mut endpoints: Vec<u8> = Vec::new();\n        for edge in subgraph_id.contains_edges() {\n            endpoints.push(self.topology[edge].left);\n            endpoints.push(self.topology[edge].right);\n        }\n        let num_edges = endpoints.len() / 2;\n        \n        endpoints.dedup();\n        let num_vertices = endpoints.len();\n        1 + num_edges - num_vertices')], C03="C03-f")
 mut("C03 bag: edge count = len / 3", [(PRE, _EUL_OLD, '        let mut endpoints: Vec<u8> = Vec::new();\n        for edge in subgraph_id.contains_edges() {\n            endpoints.push(self.topology[edge].left);\n            endpoints.push(self.topology[edge].right);\n        }\n        let num_edges = endpoints.len() / 3;\n        endpoints.sort_unstable();\n        endpoints.dedup();\n        let num_vertices = endpoints.len();\n        1 + num_edges - num_vertices')], C03="C03-f")
 mut("C03 bag: dedup forgotten", [(PRE, _EUL_OLD, '        let mut endpoints: Vec<u8> = Vec::new();\n        for edge in subgraph_id.contains_edges() {\n            endpoints.push(self.topology[edge].left);\n            endpoints.push(self.topology[edge].right);\n        }\n        let num_edges = endpoints.len() / 2;\n        endpoints.sort_unstable();\n        \n        let num_vertices = endpoints.len();\n        1 + num_edges - num_vertices')], C03="C03-f")
+
+# ---- wave 10: f64 override of a provided trait method (C20-16) ----
+mut("C20 fused f64 override of a provided mul_add used by dot", [(FLO, '    fn PI(&self) -> Self;\n}', '    fn PI(&self) -> Self;\n    fn mul_add(&self, a: &Self, b: &Self) -> Self {\n        self.ref_mul(a) + b\n    }\n}'), (FLO, '    fn abs(&self) -> Self {\n        f64::abs(*self)\n    }\n}', '    fn abs(&self) -> Self {\n        f64::abs(*self)\n    }\n    fn mul_add(&self, a: &Self, b: &Self) -> Self {\n        f64::mul_add(*self, *a, *b)\n    }\n}'), (VEC, '                acc + left.ref_mul(right)', '                left.mul_add(right, &acc)')], C20="C20-a")
+mut("N: f64 override of provided mul_add equal to the provided body, used by dot", [(FLO, '    fn PI(&self) -> Self;\n}', '    fn PI(&self) -> Self;\n    fn mul_add(&self, a: &Self, b: &Self) -> Self {\n        self.ref_mul(a) + b\n    }\n}'), (FLO, '    fn abs(&self) -> Self {\n        f64::abs(*self)\n    }\n}', '    fn abs(&self) -> Self {\n        f64::abs(*self)\n    }\n    fn mul_add(&self, a: &Self, b: &Self) -> Self {\n        *self * *a + *b\n    }\n}'), (VEC, '                acc + left.ref_mul(right)', '                left.mul_add(right, &acc)')], C20=None, C09=None)
+mut("N: fused f64 override of provided mul_add that no Vector primitive calls", [(FLO, '    fn PI(&self) -> Self;\n}', '    fn PI(&self) -> Self;\n    fn mul_add(&self, a: &Self, b: &Self) -> Self {\n        self.ref_mul(a) + b\n    }\n}'), (FLO, '    fn abs(&self) -> Self {\n        f64::abs(*self)\n    }\n}', '    fn abs(&self) -> Self {\n        f64::abs(*self)\n    }\n    fn mul_add(&self, a: &Self, b: &Self) -> Self {\n        f64::mul_add(*self, *a, *b)\n    }\n}')], C20=None, C09=None, C01=None)
